@@ -36,6 +36,19 @@ def _run_to_text(cmd, timeout, env=None, input=None):
     return p.returncode, p.stdout, p.stderr
 
 
+def _big_stack():
+    """the extracted list functions are not tail recursive: give the runner the largest stack the sandbox allows"""
+    import resource
+    soft, hard = resource.getrlimit(resource.RLIMIT_STACK)
+    for want in (resource.RLIM_INFINITY, hard, 4 << 30, 1 << 30):
+        try:
+            if want == resource.RLIM_INFINITY or hard == resource.RLIM_INFINITY or want <= hard:
+                resource.setrlimit(resource.RLIMIT_STACK, (want, hard))
+                return
+        except (ValueError, OSError):
+            continue
+
+
 class Engine:
     def __init__(self, tag, parallel=True, threads=None):
         self.tag = tag
@@ -87,7 +100,7 @@ class Engine:
                 for c in part:
                     fh.write(c.text(extra=lib.get(c.id, {}).get("in", {})))
             procs.append(subprocess.Popen([os.path.join(build.RUNNER, "runner"), f], stdout=subprocess.PIPE,
-                                          stderr=subprocess.PIPE, text=True))
+                                          stderr=subprocess.PIPE, text=True, preexec_fn=_big_stack))
         for p in procs:
             out, err = p.communicate(timeout=7200)
             if p.returncode != 0:
